@@ -160,9 +160,59 @@ func Content(r *rand.Rand, class string, n int) []byte {
 		r.Read(b)
 		copy(b, "version https://git-lfs.github.com/spec/v1\noid sha256:zzzz\n")
 	default:
+		if strings.HasPrefix(class, "ptrmalformed:") {
+			return []byte(MalformedPointer(strings.TrimPrefix(class, "ptrmalformed:")))
+		}
 		panic("unknown content class " + class)
 	}
 	return b
+}
+
+// MalformedKinds: complete texts of pointer shape that no reading of docs/spec.md makes a pointer (and that
+// ptrspec rejects). To the clean filter they are content like any other: hashed and stored in full.
+var MalformedKinds = []string{"size-minus-1", "size-negative", "oid-63-hex", "oid-65-hex", "oid-uppercase", "oid-not-hex", "oid-md5", "version-unknown", "version-missing", "size-missing", "size-empty", "size-overflow", "size-hex", "size-float"}
+
+// MalformedPointer returns the text of one kind (content class "ptrmalformed:<kind>", size argument ignored).
+func MalformedPointer(kind string) string {
+	v := "version https://git-lfs.github.com/spec/v1\n"
+	o := strings.Repeat("ab", 32)
+	switch kind {
+	case "size-minus-1":
+		return v + "oid sha256:" + o + "\nsize -1\n"
+	case "size-negative":
+		return v + "oid sha256:" + o + "\nsize -12345\n"
+	case "oid-63-hex":
+		return v + "oid sha256:" + o[1:] + "\nsize 5\n"
+	case "oid-65-hex":
+		return v + "oid sha256:" + o + "a\nsize 5\n"
+	case "oid-uppercase":
+		return v + "oid sha256:" + strings.ToUpper(o) + "\nsize 5\n"
+	case "oid-not-hex":
+		return v + "oid sha256:" + o[2:] + "zz\nsize 5\n"
+	case "oid-md5":
+		return v + "oid md5:" + o + "\nsize 5\n"
+	case "version-unknown":
+		return "version https://example.com/spec/v9\noid sha256:" + o + "\nsize 5\n"
+	case "version-missing":
+		return "oid sha256:" + o + "\nsize 5\n"
+	case "size-missing":
+		return v + "oid sha256:" + o + "\n"
+	case "size-empty":
+		return v + "oid sha256:" + o + "\nsize \n"
+	case "size-overflow":
+		return v + "oid sha256:" + o + "\nsize 9223372036854775808\n"
+	case "size-hex":
+		return v + "oid sha256:" + o + "\nsize 0x10\n"
+	case "size-float":
+		return v + "oid sha256:" + o + "\nsize 5.0\n"
+	case "size-twice":
+		return v + "oid sha256:" + o + "\nsize 5\nsize 6\n"
+	case "size-before-oid":
+		return v + "size 5\noid sha256:" + o + "\n"
+	case "tab-separator":
+		return v + "oid\tsha256:" + o + "\nsize 5\n"
+	}
+	panic("unknown malformed pointer kind " + kind)
 }
 
 // PtrPrefixLen is the length of the pointer text that content class "ptrprefix" starts with.
